@@ -36,6 +36,7 @@ argument passing style and branch layout therefore do not matter.
 from __future__ import annotations
 
 import ast
+import re
 from dataclasses import dataclass
 from fractions import Fraction
 from typing import Dict, List, Optional, Tuple
@@ -964,6 +965,26 @@ def check_b(ck, repo):
             continue
         for conds, e, at in _split(repo, fit, b["X"], c):
             designs[T in conds, F in conds] = (xt(e), c)
+    # a local that only ever holds X (or X.values: the same data as an array) stands for X
+    Xp_ = fit.named_params[1]
+    alias = set()
+    for _ in range(3):
+        for nm_ in {t_.id for s_ in own_nodes(fit.node) if isinstance(s_, ast.Assign) for t_ in s_.targets if isinstance(t_, ast.Name)} - {Xp_}:
+            def _dead(s_):
+                # a statement that follows a `raise` in its block is never executed
+                par_ = getattr(s_, "_parent", None)
+                for f_ in ("body", "orelse", "finalbody"):
+                    seq_ = getattr(par_, f_, None)
+                    if isinstance(seq_, list) and s_ in seq_:
+                        return any(isinstance(x_, ast.Raise) for x_ in seq_[: seq_.index(s_)])
+                return False
+
+            vals_ = [src_of(s_.value) for s_ in own_nodes(fit.node) if isinstance(s_, ast.Assign) and any(isinstance(t_, ast.Name) and t_.id == nm_ for t_ in s_.targets) and not _dead(s_)]
+            if vals_ and all(v_ in {Xp_, f"{Xp_}.values"} | alias for v_ in vals_):
+                alias.add(nm_)
+    if alias:
+        pat_ = re.compile(r"\b(%s)\b" % "|".join(map(re.escape, sorted(alias))))
+        designs = {k_: (pat_.sub(Xp_, v_[0]), v_[1]) for k_, v_ in designs.items()}
     dT, dF = designs.get((True, False)), designs.get((False, True))
     if dT is None or dF is None:
         ck.unknown("C05.b", fit, "design matrix of the inner fit", f"cannot split the design matrix by fit_intercept: {designs}")
